@@ -208,6 +208,29 @@ def run(run):
     run.guarded("R1", r1)
 
     def r2():
+        # the set that decides "this call gets a stub edge" holds exactly the extern symbols: every insertion into
+        # GraphBuilder.extern_subs takes its key from program.extern_symbols
+        from .lib import bindsrc as B
+        from .lib import iterctx as IC
+        ins = []
+        for f_ in F.fns:
+            if f_.get("dk") == "Closure" or "GraphBuilder" not in (f_.get("impl_self", "") + (f_.get("root") or f_["path"])):
+                continue
+            for x in T.walk_fn(F, f_):
+                if T.is_call(x, ("insert", "extend", "push")) and x.get("a") and T.self_field(x["a"][0]) == "extern_subs":
+                    ins.append((f_, x))
+        for i_, (f_, x) in enumerate(ins):
+            roots = B.bodies(F, f_)
+            exprs = list(x["a"][1:]) + IC.contexts(F, f_, x)
+            from_extern = any(y.get("k") == "Field" and y.get("fn") == "extern_symbols" for e_ in exprs for src, how in B.sources(F, roots, e_) for y in B.walk_with_closures(F, src))
+            from_subs = any(y.get("k") == "Field" and y.get("fn") == "subs" for e_ in exprs for src, how in B.sources(F, roots, e_) for y in B.walk_with_closures(F, src))
+            key = "extern_subs|filled-from-extern-symbols|%s#%d" % (f_["name"], i_)
+            if from_extern:
+                run.holds("R2", key, "", F.loc(x))
+            elif from_subs:
+                run.violated("R2", key, "an internal function (a key of program.subs) is entered into extern_subs: direct calls to it get an ExternCallStub edge, which is reserved for calls to extern symbols and indirect calls", F.loc(x))
+            else:
+                run.undecided("R2", key, "origin of the inserted tid not traced", F.loc(x))
         outside = []
         n = 0
         for f in F.fns:
